@@ -45,15 +45,19 @@ _FT = 'contract-based deductive verification: frame contracts checked against mo
 TEXT['C11'] = dict(
     text=('All-inputs frame proof: write / alias effects of every function involved are inferred from the real ASTs function by function '
           '(callee summaries at call sites) and must stay inside the frame contracts: caller frame, caller dictionary and module-level '
-          'objects are never written and the parameter snapshot shares no object with the global set.'),
+          'objects are never written and the parameter snapshot shares no object with the global set; the same for the parameter merge '
+          'as full-mode postconditions (adjust_nested_dict writes only its first argument, _setup_prms returns a fresh unlinked object).'),
     design_ref='DESIGN.md section 4 (C11)', note='Trusted: the effect analysis (A-FRAME) and its library effect table (A-LIBPURE); a native bounded run accompanies it.',
     technique=_FT)
 TEXT['C12'] = dict(
-    text=('Frame proof that every processing step reads parameters only through the chunk snapshot and that set / reset go through the '
-          'same merge and fresh defaults; equivalence of the three routes, unknown-key handling and reset are checked by a bounded native '
-          'run (labelled bounded), since adjust_nested_dict is not under a full-mode contract.'),
-    design_ref='DESIGN.md section 4 (C12)', note='Trusted: A-FRAME, ruamel.yaml; bounded part never counted as proved.',
-    technique=_FT + ' + bounded run-time check of the route equivalence')
+    text=('Unbounded proof (tree dialect: parameter values as finite maps over string keys, arbitrary nesting) that adjust_nested_dict '
+          'overrides exactly the named known keys, recursively, adds no key and warns once per unknown key; that the chunk snapshot is '
+          'the global adjusted by the per-call values in a fresh object; that reset_prms restores exactly the packaged values of all / the '
+          'named parameters whatever the global held.  Frame proof that every processing step reads parameters only through the chunk '
+          'snapshot and that set_prms goes through the same merge.  Equality of whole runs through the three routes and the YAML route of '
+          'set_prms are checked by a bounded native run (labelled bounded).'),
+    design_ref='DESIGN.md section 4 (C12)', note='Trusted: A-FRAME, A-TREE (dictionaries are finite trees; deepcopy / YAML load return independent trees), ruamel.yaml; bounded part never counted as proved.',
+    technique='contract-based deductive verification: recursive contract over a map model of nested dicts (z3, key universals instantiated per path) + frame contracts + bounded run-time check of the route equivalence')
 TEXT['C13'] = dict(
     text=('Frame proof of the premises of non-interference (disjoint footprints of operations on distinct chunks, no module-level mutable '
           'state on the processing path); interleavings at stage granularity then commute.  Thread pre-emption inside a stage is outside the '
